@@ -104,27 +104,38 @@ def r2_any_dependent_member_wraps(ctx):
 
 
 def r2b_dependent_at_any_depth(ctx):
+    from ..orderdom import Interp
+
     repo = ctx.repo
     fs = [f for f in repo.all_funcs() if f.name == "is_dependent" and f.parent is None and f.cls is None]
     ctx.require(len(fs) == 1, "is_dependent not found")
     f = fs[0]
     ctx.touch(f)
     p = f.params[0]
-    rec = False
-    for c in ast.walk(f.node):
-        if isinstance(c, ast.Call) and call_name(c) == "any" and c.args and isinstance(c.args[0], (ast.GeneratorExp, ast.ListComp)):
-            ge = c.args[0]
-            g = ge.generators[0]
-            over_args = isinstance(g.iter, ast.Call) and call_name(g.iter) in ("get_args", "typing.get_args") and dotted(g.iter.args[0]) == p
-            self_call = isinstance(ge.elt, ast.Call) and call_name(ge.elt) == f.name and dotted(ge.elt.args[0]) == dotted(g.target)
-            rec = rec or (over_args and self_call and not g.ifs)
-    direct = any(isinstance(c, ast.Call) and call_name(c) == "isinstance" and dotted(c.args[0]) == p for c in ast.walk(f.node))
+    dm = A.dependent_meta(repo)
+    bad = []
+    n = 0
+    for isdep in (True, False):
+        for args in ((), ("a",), ("a", "b")):
+            for answers in ([()] if not args else [tuple(x) for x in __import__("itertools").product((True, False), repeat=len(args))]):
+                table = dict(zip(args, answers))
+                stubs = {
+                    "isinstance": lambda x, c, d=isdep: d if x == "T" else False,
+                    "get_args": lambda x, a=args: a if x == "T" else (),
+                    "typing.get_args": lambda x, a=args: a if x == "T" else (),
+                    f.name: lambda x, t=table: t[x],
+                }
+                got = Interp("Order", stubs=stubs).run(f.node, {p: "T", dm.name: "DEP"})
+                want = isdep or any(answers)
+                n += 1
+                if bool(got) != want:
+                    bad.append((isdep, dict(table), got))
     ctx.ob(
         f"{f.key}:recursive",
         f.loc(),
-        "a type is value-dependent if it is a dependent type or any of its type arguments is, at any depth (the test recurses into the arguments)",
-        rec and direct,
-        "the value-dependence test no longer recurses through all type arguments: a dependent type nested two levels down (a union of intersections of conditions) is registered as a plain static type and its condition is never checked",
+        f"a type is value-dependent iff it is a dependent type or one of its type arguments is, recursively ({n} cases interpreted)",
+        not bad,
+        f"for a type that {'is' if bad and bad[0][0] else 'is not'} a dependent type with arguments answering {bad[0][1] if bad else ''} the test says {bad[0][2] if bad else ''}: a dependent type nested in the arguments of another type is registered as a plain static type and its condition is never checked",
     )
 
 
@@ -483,31 +494,59 @@ def r6_lower_rank_errors_told_apart(ctx):
     )
 
 
-def r7_order_against_plain_types(ctx):
+def dependent_order_table(ctx):
+    """Decision table of DependentType.__type_order__, obtained by interpreting the method on every combination of
+    its finitely many relevant inputs.  -> (method, rows) with rows = list of (case description, got, want)."""
+    from ..orderdom import Interp
+
     dm = A.dependent_meta(ctx.repo)
     m = dm.methods.get("__type_order__")
     ctx.require(m is not None, f"{dm.key} lost __type_order__")
-    ctx.touch(m)
     rv = recv_name(m)
     other = [p for p in m.params if p != rv][0]
-    chain = flatten_chain(m.node.body)
-    ok = False
-    for i, (test, body, node) in enumerate(chain):
-        if test is not None and isinstance(test, ast.BoolOp) and isinstance(test.op, ast.Or) and len(test.values) == 2:
-            calls = test.values
-            if all(isinstance(c, ast.Call) and call_name(c) == "subclasscheck" for c in calls):
-                a = {(src(c.args[0]), src(c.args[1])) for c in calls}
-                if a == {(other, f"{rv}.bound"), (f"{rv}.bound", other)}:
-                    r1 = [s for s in body if isinstance(s, ast.Return)]
-                    nxt = chain[i + 1][1] if i + 1 < len(chain) and chain[i + 1][0] is None else []
-                    r2 = [s for s in nxt if isinstance(s, ast.Return)]
-                    ok = bool(r1) and dotted(r1[0].value) == "Order.LESS" and bool(r2) and dotted(r2[0].value) == "Order.NONE"
+    rows = []
+    OPP = {"LESS": "MORE", "MORE": "LESS", "SAME": "SAME", "NONE": "NONE"}
+
+    def run(isdep, sc1, sc2, border, lt1, lt2):
+        def typeorder(a, b):
+            if (a, b) == ("SB", "OB"):
+                return border
+            if (a, b) == ("OB", "SB"):
+                return OPP[border]
+            raise AnalysisError(f"{m.key}: typeorder called on {a}, {b}")
+
+        stubs = {
+            "isinstance": lambda x, c: isdep if (x == "O" and c == "DEP") else False,
+            "subclasscheck": lambda a, b: {("O", "SB"): sc1, ("SB", "O"): sc2}[(a, b)],
+            "typeorder": typeorder,
+            "<": lambda a, b: {("S", "O"): lt1, ("O", "S"): lt2}[(a, b)],
+        }
+        env = {rv: "S", other: "O", f"{rv}.bound": "SB", f"{other}.bound": "OB", dm.name: "DEP"}
+        return Interp(A.order_enum(ctx.repo).name, stubs=stubs).run(m.node, env)
+
+    for sc1 in (True, False):
+        for sc2 in (True, False):
+            want = "LESS" if (sc1 or sc2) else "NONE"
+            rows.append((f"plain type; subtype of bound={sc1}, supertype of bound={sc2}", run(False, sc1, sc2, "NONE", False, False), want))
+    for border in ("LESS", "MORE", "NONE"):
+        rows.append((f"dependent type; bounds compare {border}", run(True, False, False, border, False, False), border))
+    for lt1 in (True, False):
+        for lt2 in (True, False):
+            want = "LESS" if lt1 else ("MORE" if lt2 else "NONE")
+            rows.append((f"dependent type; same bound; self<other={lt1}, other<self={lt2}", run(True, False, False, "SAME", lt1, lt2), want))
+    return m, rows
+
+
+def r7_order_against_plain_types(ctx):
+    m, rows = dependent_order_table(ctx)
+    ctx.touch(m)
+    bad = [r for r in rows if r[0].startswith("plain") and r[1] != r[2]]
     ctx.ob(
         f"{m.key}:vs-plain-type",
         m.loc(),
-        "against a non-dependent type the order is LESS when that type is related to the bound (either way) and NONE otherwise",
-        ok,
-        "a dependent type is no longer ranked more specific than its bound and the bound's sub/superclasses: when its condition holds it is not preferred over methods declared on the bound",
+        "against a non-dependent type the order is LESS when that type is related to the bound (either way) and NONE otherwise (4 cases interpreted)",
+        not bad,
+        f"{bad[0][0]}: answers {bad[0][1]} instead of {bad[0][2]}: a dependent type is no longer ranked more specific than its bound and the bound's sub/superclasses, so when its condition holds it is not preferred over methods declared on them" if bad else "",
     )
 
 
@@ -527,5 +566,5 @@ RULES = [
     ("C10.R4", "P1", r4_table_needs_disjoint_keys, "table path needs disjoint keys and one dependent position"),
     ("C10.R5", "P1", r5_union_members_bound_guarded, "a predicate inside a union is bound-guarded"),
     ("C10.R6", "P1", r6_lower_rank_errors_told_apart, "'no lower rank' and 'ambiguous lower rank' are told apart"),
-    ("C10.R7", "P2", r7_order_against_plain_types, "order against plain types"),
+    ("C10.R7", "P1", r7_order_against_plain_types, "order against plain types"),
 ]
